@@ -16,7 +16,8 @@ PROP = {
 
 def gen_one(r, i, tier):
     dyadic = (i % 3 != 2)
-    g = gen.G(r, dyadic=dyadic, max_depth=3 if tier == "quick" else 4)
+    # (transformed Counts included: a merge must keep the weight transform of every Count it takes over)
+    g = gen.G(r, dyadic=dyadic, max_depth=3 if tier == "quick" else 4, counts_tsq=0.35)
     spec = g.spec()
     n = 10 if tier == "quick" else 20
     mk = (lambda k: base.small_stream(r, spec, k, gen.WEIGHTS)) if dyadic else (lambda k: gen.stream(r, spec, k))
